@@ -29,6 +29,15 @@ Definition vi_encoded_size (first : N) : N := 2 ^ (N.shiftr first encsize_shift)
 
 Definition vi_max : N := 2 ^ max_shift - 1.
 
+(* `impl TryFrom<u64> for VarInt`, `impl TryFrom<usize> for VarInt` (x as u64 on a 64-bit target) and
+   `PushId::try_from(u64)`: the generated facts say whether each delegates to from_u64 *)
+Definition vi_try_from_u64 (x : N) : option N :=
+  if try_from_u64_delegates then vi_from_u64 x else Some x.
+Definition vi_try_from_usize (x : N) : option N :=
+  if try_from_usize_delegates then vi_try_from_u64 x else Some x.
+Definition push_id_try_from (x : N) : option N :=
+  if push_id_delegates then vi_try_from_u64 x else Some x.
+
 (* VarInt::decode on the remaining-bytes view.  Result and the view afterwards
    (the first byte is consumed even when the tail is too short, as `get_u8` does). *)
 Definition vi_decode (bs : bytes) : res N N * bytes :=
@@ -47,6 +56,15 @@ Definition vi_decode (bs : bytes) : res N N * bytes :=
                 skipn (N.to_nat copy) r)
       end
   end.
+
+(* BufMutExt::write_var (both copies: proto/coding.rs and proto/varint.rs): from_u64(x).unwrap().encode;
+   None models the unwrap panic.  BufExt::get_var is VarInt::decode (generated fact). *)
+Definition vi_write_var (x : N) : option bytes :=
+  if write_var_is_checked_encode then
+    match vi_from_u64 x with Some v => vi_encode v | None => None end
+  else vi_encode (x mod 2 ^ 32).
+Definition vi_get_var (bs : bytes) : res N N * bytes :=
+  if get_var_is_decode then vi_decode bs else (Err 0, bs).
 
 (* StreamId *)
 Inductive side := Client | Server.
